@@ -348,6 +348,56 @@ func (g *FG) ReachesAvoiding(from, to Loc, avoid func(ast.Node) bool) bool {
 	return hit
 }
 
+// reachesUnder: is `to` reachable from just after `from` without passing a CFG node for which stop holds,
+// following only branch edges that are consistent with sigma (an assignment of canonical boolean atoms;
+// conditions sigma does not decide are followed both ways). sigma == nil: plain reachability.
+func (g *FG) reachesUnder(from, to Loc, stop func(ast.Node) bool, sigma map[string]bool) bool {
+	seen := map[*cfg.Block]bool{}
+	var work []Loc
+	work = append(work, Loc{from.B, from.Idx + 1})
+	for len(work) > 0 {
+		l := work[len(work)-1]
+		work = work[:len(work)-1]
+		if l.Idx == 0 {
+			if seen[l.B] {
+				continue
+			}
+			seen[l.B] = true
+		}
+		blocked := false
+		for i := l.Idx; i < len(l.B.Nodes); i++ {
+			if (Loc{l.B, i}) == to {
+				return true
+			}
+			if stop != nil && stop(l.B.Nodes[i]) {
+				blocked = true
+				break
+			}
+		}
+		if blocked {
+			continue
+		}
+		succs := l.B.Succs
+		if sigma != nil && len(succs) == 2 {
+			if cd := g.BranchCond(l.B); cd != nil {
+				if h, k := condHolds(g.P, g.Info, Guard{Cond: cd, Pol: true}, sigma); k {
+					if h {
+						succs = succs[:1]
+					} else {
+						succs = succs[1:]
+					}
+				}
+			}
+		}
+		for _, s := range succs {
+			if !seen[s] {
+				work = append(work, Loc{s, 0})
+			}
+		}
+	}
+	return false
+}
+
 // Guard is a branch condition with the polarity that must hold for control to reach a location.
 type Guard struct {
 	Cond *Cond
